@@ -38,7 +38,7 @@ PROBES = ["ran_to_completion", "forced_cleanup_deleted_preexisting", "refused_wi
           "relative_workspace", "default_workspace", "input_via_symlinked_ancestor", "cwd_contains_default_name",
           "c_language", "c_header_preprocess", "second_run_other_project", "second_run_incremental", "spawned_subprocess", "graph_output", "javascript_language",
           "inputs_share_base_name", "input_given_with_leading_dotdots", "strict_parse_mode", "non_utf8_source_file",
-          "pwd_is_start_directory", "pwd_left_over_from_launcher", "two_inputs_contain_workspace"]
+          "pwd_is_start_directory", "pwd_left_over_from_launcher", "two_inputs_contain_workspace", "not_quiet", "taint_report_written"]
 # the same check again, smaller, in interpreters started with assertions stripped (python -O / PYTHONOPTIMIZE=1)
 ENV_VARIANTS = [{"name": "python-O", "env": {"PYTHONOPTIMIZE": "1"}, "runs": {'quick': 250, 'thorough': 2500}}]
 TIERS = {
@@ -66,7 +66,9 @@ def setup_worker():
 # ----------------------------------------------------------------------------- generator
 
 PY = ["import os\nx = 1\n", "def f(a, b=2):\n    return a + b\nr = f(1)\n", "class A:\n    def m(self, p):\n        self.q = p\n        return p\n",
-      "from pkg import util\nv = util.g(3)\n", "y = [1, 2, 3]\nfor i in y:\n    print(i)\n"]
+      "from pkg import util\nv = util.g(3)\n", "y = [1, 2, 3]\nfor i in y:\n    print(i)\n",
+      # a taint flow (the parameter alpha is a source in the small settings): the taint writer has something to write
+      "def handler(alpha):\n    query = alpha\n    sink(query)\n    return query\nhandler(1)\n"]
 JS = ["function f(a) { return a + 1; }\nvar r = f(2);\n", "const o = {a: 1};\no.b = o.a;\n",
       # names taken from the analysed code may contain path separators
       'const routes = {\n  "../../../../../../site/routes/index"(req) { return req; },\n  "a/b"(x) { return x; }\n};\nroutes["a/b"](1);\n',
@@ -105,6 +107,7 @@ def gen_knobs(rng, tier):
         # $PWD of the process: not set, the start directory, or left over from wherever the launching program was
         "pwd_env": rng.choice(["unset", "unset", "correct", "stale", "stale"]),
         "nested_inputs": rng.random() < 0.2,
+        "quiet": rng.random() < 0.6,          # without -q the taint phase writes its report file
         "tier": tier,
     }
 
@@ -238,6 +241,7 @@ def generate(rng, k):
     if k["cwd_in_input"] and inputs and not inputs[0].endswith(".py"):
         cwd = inputs[0]
     run = {"op": "run", "sub": k["sub"], "lang": k["lang"], "force": k["force"], "cwd": cwd, "pwd_env": k.get("pwd_env", "unset"),
+           "quiet": k.get("quiet", True),
            "flags": (["--nomock"] if k["nomock"] else []) + (["-I"] if k["lang"] == "c" and k.get("c_preprocess") else [])
                     + (["--strict-parse-mode"] if k.get("strict") else [])
                     + ((["--graph", "--enable-p2"] if k.get("graph") and k["sub"] != "lang" else []))}
@@ -383,7 +387,9 @@ def execute(trace):
             in_args = [_path_arg(R, cwd_abs, i) for i in op["inputs"]]
             W = effective_workspace(cwd_abs, w_value)
             spec = {"sub": op["sub"], "lang": op["lang"], "force": op["force"], "workspace": w_value, "inputs": in_args,
-                    "flags": op.get("flags", [])}
+                    "flags": op.get("flags", []), "quiet": op.get("quiet", True)}
+            if not op.get("quiet", True):
+                hit("not_quiet")
             argv = lianrun.build_argv(spec, _settings)
             before = fsseam.snapshot(R)
             input_real = [os.path.realpath(os.path.join(cwd_abs, a)) for a in in_args]
@@ -493,6 +499,8 @@ def execute(trace):
             n_events = rep.get("n_events", 0)
             if status == "ok":
                 hit("ran_to_completion")
+            if os.path.isfile(os.path.join(W, "taint", "taint_data_flow.json")):
+                hit("taint_report_written")
             if rep.get("counts", {}).get("shutil.copyfile"):
                 hit("copied_files")
             if rep.get("counts", {}).get("spawn"):
